@@ -107,6 +107,26 @@ theorem getClockedNodes_complete (s s' : State) (c : Nat) (hI : Inv s) (hr : get
     subst e
     exact inv_cache_complete s hI c hc hne x
 
+/-- `setOutputConnectionType` never changes the type of an output that some connected input refers to (it either throws or finds the
+type unchanged): the connection type a consumer was connected to stays the one it sees -/
+theorem setType_keeps_attached_types (s s' : State) (h o : Nat) (t : CType) (hI : Inv s)
+    (hr : setOutputConnectionType s h o t = .ok s') : TypeStable s s' := by
+  obtain ⟨ct, e⟩ := setType_spec hr
+  intro h' _ _ hs ha i _ hi d hd hp
+  exact setType_attached_stable hI.1.1 hr h' i d hs ha hi hp
+
+/-- the typed `connectInput` of arithmetic (`cls = 1`) and logic (`cls = 2`) nodes, whose output type follows their operands: if it
+returns normally the graph is well formed and no existing connection has seen its driver's type change (a wider operand under attached
+consumers makes it throw instead); if it throws, the operand is nevertheless connected (`afterThrow`) and the graph is still well formed -/
+theorem typedConnect_ok (s s' : State) (cls h i : Nat) (d : Option NodePort) (hI : Inv s)
+    (hr : typedConnect s cls h i d = .ok s') : Inv s' ∧ TypeStable s s' := by
+  refine ⟨Gatery.C09.inv_step (.typedConnect cls h i d) hI hr, ?_⟩
+  intro h' hs' ha' _ _ i' hi' _ d' hd' _
+  exact typedConnect_stable hI.1.1 hr h' i' d' hs' ha' hi' hd'
+
+theorem typedConnect_throw (s : State) (cls h i : Nat) (d : Option NodePort) (hI : Inv s) :
+    Inv (afterThrow s (.typedConnect cls h i d)) := inv_afterThrow _ hI
+
 /-- `createUnconnectedClone` (with `copyBaseToClone` as it is: `m_clocks.resize(n)`): the clone has as many clock ports as the
 source and none of them is set, so nothing has to be registered; the graph stays well formed -/
 theorem clone_unclocked (s s' : State) (src : Nat) (hI : Inv s) (hr : cloneNode s src = .ok s') :
@@ -227,6 +247,27 @@ def obs5 (r : Res State) : Option (List NodePort × List NodePort) :=
 example : obs5 (run State.init (demoOps5.take 8)) = some ([⟨0, 0⟩, ⟨1, 0⟩, ⟨2, 0⟩], [⟨0, 0⟩, ⟨1, 0⟩, ⟨2, 0⟩]) := by rfl
 example : obs5 (run State.init (demoOps5.take 10)) = some ([⟨1, 0⟩, ⟨2, 0⟩, ⟨0, 0⟩], []) := by rfl
 example : obs5 (run State.init demoOps5) = some ([⟨1, 0⟩, ⟨2, 0⟩, ⟨0, 0⟩], [⟨0, 0⟩, ⟨1, 0⟩, ⟨2, 0⟩]) := by rfl
+
+/-- the route of a width change through a producer's own inputs: an arithmetic node (2) with an 1-bit operand and a consumer (3);
+connecting a 3-bit second operand would widen its output under the consumer: the call throws, the operand stays connected -/
+def demoOps6 : List Op :=
+  [.createNode false 0 1 0, .createNode false 0 1 0, .createNode false 2 1 0, .createNode true 1 1 0,
+   .setType 0 0 ⟨1, 1⟩, .setType 1 0 ⟨1, 3⟩, .typedConnect 1 2 0 (some ⟨0, 0⟩), .signalConnect 3 (some ⟨2, 0⟩)]
+
+def isAssert : Res State → Bool
+  | .error .assert => true
+  | _ => false
+
+def obs6 (r : Res State) : Option (CType × CType × Option NodePort × List NodePort) :=
+  match r with
+  | .ok s => some (s.ctype 2 0, s.ctype 3 0, s.inp 2 1, s.conns 1 0)
+  | .error _ => none
+
+example : obs6 (run State.init demoOps6) = some (⟨1, 1⟩, ⟨1, 1⟩, none, []) := by rfl
+example : isAssert ((run State.init demoOps6).bind fun s => typedConnect s 1 2 1 (some ⟨1, 0⟩)) = true := by rfl
+example : obs6 (run State.init (demoOps6 ++ [.typedConnect 1 2 1 (some ⟨1, 0⟩)])) = some (⟨1, 1⟩, ⟨1, 1⟩, some ⟨1, 0⟩, [⟨2, 1⟩]) := by rfl
+-- without the consumer the same call widens the output
+example : obs6 (run State.init (demoOps6.take 7 ++ [.typedConnect 1 2 1 (some ⟨1, 0⟩)])) = some (⟨1, 3⟩, ⟨1, 0⟩, some ⟨1, 0⟩, [⟨2, 1⟩]) := by rfl
 
 /-- the premises of `bypass_ok` / `bypass_self_diverges` are satisfiable: node 1 (one consumer) can be bypassed, node 0 cannot -/
 def demoOps2 : List Op :=
